@@ -7,7 +7,7 @@ from .. import core, fe, world
 from .. import prop as P
 from ..prop import V, hx, unhx
 
-OPS = ["create", "create_bad", "create_again", "create_stored", "server_wipe", "gen_key", "encrypt", "upload_config", "upload_index", "search"]
+OPS = ["create", "create_bad", "create_again", "create_stored", "create_other", "server_wipe", "gen_key", "encrypt", "upload_config", "upload_index", "search"]
 LEGAL = ["create", "gen_key", "encrypt", "upload_config", "upload_index", "search", "search"]
 BAD_CFG = ["unknown_scheme", "missing_param", "aes_key_20", "no_scheme"]
 
@@ -35,7 +35,7 @@ class C11(P.Property):
     real_stub = dict(deployment="real client Service + real server + websockets on the simulated loop/TCP; disk seam observing; no kills (C13)")
     assumptions = ["one service per run; operations before any create use an unknown sid"]
     probe_names = ["key_regen_refused", "encrypt_again_refused", "upload_before_create_refused", "search_before_upload_refused",
-                   "invalid_config_refused", "create_again_refused", "create_from_stored_config_refused", "reached_uploaded", "scheme_refused_input", "op_on_unknown_sid", "op_timed_out_under_stall", "service_deleted_on_server"]
+                   "invalid_config_refused", "create_again_refused", "create_from_stored_config_refused", "reached_uploaded", "scheme_refused_input", "op_on_unknown_sid", "op_timed_out_under_stall", "service_deleted_on_server", "second_service_created"]
 
     def setup(self):
         world.setup_frontend()
@@ -164,6 +164,27 @@ class C11(P.Property):
                     continue  # (pickle memoisation of repeated strings) this would be a different, new service: not a redo
                 r = await host.create(stored)
                 exp = False
+            elif op == "create_other":
+                # a second, independent service from the same configuration in the same process: all prerequisites are met, it has to
+                # be created under another sid (fresh salt) and must leave the first service alone
+                if sid is None:
+                    continue
+                r = await host.create(copy.deepcopy(cfg0))
+                after = fe.client_snapshot()
+                new = [k[:-1] for k in after if k.endswith("/") and k not in before]
+                out["obs"].append(("-", "create_other", "accepted" if r[0] == "ok" else "refused"))
+                if r[0] != "ok" or len(new) != 1 or new[0] == sid:
+                    viol.append(V("C11.order", "REFUSAL_MISMATCH", f"step {si}: creating a second service from the same configuration was "
+                                                               f"{'refused (' + repr(r[1])[:80] + ')' if r[0] != 'ok' else 'not given a directory of its own'}", site=op))
+                    return
+                changed = sorted(k for k in before if before.get(k) != after.get(k))
+                if changed:
+                    viol.append(V("C11.refusal", "STATE_MISMATCH", f"step {si}: creating a second service changed files of the first: {changed}", site=op))
+                    return
+                probes["second_service_created"] = 1
+                import shutil
+                shutil.rmtree(run.sse_path("client", new[0]), ignore_errors=True)  # (kept out of the one-service model)
+                continue
             elif op == "server_wipe":
                 # the operator deletes the service on the server (frontend/README.md: state 0 = "not created or deleted"); no connection
                 # of the service is open at that moment.  From then on the server reports state 0 and the client's upload flags follow.
